@@ -4,6 +4,8 @@ import (
 	"bytes"
 	"fmt"
 	"mime"
+	"os"
+	"path/filepath"
 	"strings"
 	"testing"
 	"time"
@@ -33,6 +35,13 @@ type C18Scenario struct {
 	// ReEnc: what is judged is a second render, made after the caller changed File.Enc of every
 	// file (the first render has fixed the files' header fields)
 	ReEnc bool `json:"reEnc,omitempty"`
+	// PreFailAt > 0: before the judged render another message of the same shape is rendered in
+	// this process into a destination that fails from this offset on (a send that broke off):
+	// nothing of it may show in what is generated afterwards.
+	PreFailAt int `json:"preFailAt,omitempty"`
+	// ViaFile: the judged bytes are what WriteToFile leaves in a file that existed before and
+	// held a longer message.
+	ViaFile bool `json:"viaFile,omitempty"`
 }
 
 type c18 struct{}
@@ -254,6 +263,10 @@ func (p *c18) Gen(seed uint64, i int, tier string) (any, bool) {
 	}
 	sc := &C18Scenario{Msg: m, Seed: sim.Derive(seed, 18, uint64(i), 1)}
 	sc.ReEnc = nf > 0 && r.Chance(1, 5)
+	if r.Chance(1, 6) {
+		sc.PreFailAt = 200 + r.Intn(3000)
+	}
+	sc.ViaFile = !sc.ReEnc && r.Chance(1, 8)
 	for k := 0; k < m.producerCount(); k++ {
 		sc.Chunks2 = append(sc.Chunks2, GenChunks(r))
 	}
@@ -391,9 +404,23 @@ func (p *c18) render(t *testing.T, sc *C18Scenario, alt bool) ([]byte, error, an
 	var data []byte
 	var err error
 	pan, st := RunPlain(t, sc.Seed, func() {
+		if sc.PreFailAt > 0 {
+			if b0 := BuildMsg(spec, BuildOpts{}); b0.BuildErr == nil {
+				_, _ = b0.Msg.WriteTo(&faultSink{Mode: "persistent-short", K: sc.PreFailAt})
+			}
+		}
 		b := BuildMsg(spec, BuildOpts{})
 		if b.BuildErr != nil {
 			err = fmt.Errorf("build: %w", b.BuildErr)
+			return
+		}
+		if sc.ViaFile {
+			fn := filepath.Join(ScratchDir, "c18-spool.eml")
+			_ = os.WriteFile(fn, bytes.Repeat([]byte("an older and much longer message that was stored under this name before\r\n"), 4000), 0o644)
+			if err = b.Msg.WriteToFile(fn); err == nil {
+				data, err = os.ReadFile(fn)
+			}
+			_ = os.Remove(fn)
 			return
 		}
 		data, err = Render(b.Msg)
